@@ -213,7 +213,7 @@ func newGnoWorld(fine bool) *gnoWorld {
 }
 
 func (w *gnoWorld) startQuery(kind string) {
-	q := &queryObs{Kind: kind, Ord: "mb"}
+	q := &queryObs{Kind: kind, Ord: "mb", StartH: w.app.app.LastBlockHeight()}
 	w.q = q
 	seen := false
 	w.qproc = w.s.Spawn("Q", func(pt string) bool {
@@ -222,6 +222,7 @@ func (w *gnoWorld) startQuery(kind string) {
 		}
 		if pt == "get:cinfo" && !seen {
 			seen = true
+			q.SawView = true
 			return true
 		}
 		return false
@@ -317,8 +318,12 @@ func (w *gnoWorld) replay(beh []mbt.Step) (o outcome, obs []queryObs, skipped bo
 				return
 			}
 			if want := gnoGateAfter[act]; !p.Done && p.At != want {
-				o.drift = fmt.Sprintf("step %d %s: process at gate %q, expected %q", k, act, p.At, want)
-				return
+				if o.drift == "" {
+					o.drift = fmt.Sprintf("step %d %s: process at gate %q, expected %q", k, act, p.At, want)
+				}
+				if p != w.qproc {
+					return
+				}
 			}
 		}
 		if p == w.cproc && p.Done {
